@@ -6,7 +6,7 @@ Gecs/Model/Query.lean (closure panics inside `ecs_iter!` / `ecs_iter_destroy!` /
 the writes already made through `&mut` stay), Gecs/Model/History.lean (`run` CONTINUES after
 every panic in the state the panic left: `catch_unwind` followed by arbitrary further use).
 Tied to the real code by the fault-injection / overflow profiles of harness/rt (panicking
-closures, `verif_preset_versions`, small `MAX_DATA_CAPACITY`).
+closures, `verif_preset_versions`; the real 2^24 limit by `rt boundary`, the real 2^32 boundary by `rt cycles`).
 
 Panic sources in the model: the two version overflows of `force_destroy`, "capacity overflow"
 of `create`, "capacity may not exceed" of `with_capacity`, "invalid entity type" of the
